@@ -25,7 +25,7 @@ _TIER = ['quick']
 
 def scope_text(tier):
     return ('%s smallest multi-architecture SEL-q specs + DV-1 and CON-1 subjects; all variables, all values; both encoders' %
-            ('200' if tier == 'quick' else 'all (<= 64 architectures)'))
+            ('200' if tier == 'quick' else '700'))
 
 
 def subjects(tier):
@@ -43,7 +43,7 @@ def subjects(tier):
                 continue
         out.append(('sel', spec))
         n += 1
-        if tier == 'quick' and n >= 200:
+        if n >= (200 if tier == 'quick' else 700):
             break
     k = 0
     for spec in families.dv1('quick'):
